@@ -48,6 +48,7 @@ func c14Mut(r *rng, id string) {
 		sc.label = label + "x"
 	case "plain":
 		sc.key = nil
+		sc.compress = r.chance(1, 2) // a peer without a key writes compressed frames by default
 	case "skipunlabelled":
 		sc.label = "" // same key, sealed with an empty label as associated data
 	}
@@ -79,6 +80,10 @@ func c14Mut(r *rng, id string) {
 			return
 		}
 		base = pk[0]
+	} else if src == "plain" && r.chance(1, 3) {
+		// an unsealed state exchange (the sender would teach the receiver about itself and n5)
+		ml.VerifAliveNode(snd.m, 5, "n5", []byte{10, 0, 0, 5}, 7946, nil, []uint8{1, 5, 2, 0, 0, 0}, nil, false)
+		base = captureStream(snd, func() { snd.m.Join([]string{"R/10.0.0.1:7946"}) })
 	} else {
 		base = captureStream(snd, func() { snd.m.SendReliable(to, payload) })
 	}
